@@ -15,6 +15,17 @@ class InjectedFault(Exception):
     pass
 
 
+class NoReturn(BaseException):
+    """a public call of the optimizer was still running after CALL_BUDGET seconds (normal calls take milliseconds)"""
+
+
+CALL_BUDGET = 15.0
+
+
+def _alarm(signum, frame):
+    raise NoReturn()
+
+
 # ---------------------------------------------------------------------------------------------------------
 # merit-function families: out_i(k) for knob vector k (plain Python floats)
 
@@ -405,8 +416,18 @@ class Session:
             if before > 0:
                 r0 = self.rows(0, "tag")[:1]
                 row0 = {"va": r0[0]["va"], "ta": r0[0]["ta"], "knobs": r0[0]["knobs"]} if r0 else None
-            fn()
+            import signal
+            old = signal.signal(signal.SIGALRM, _alarm)
+            signal.setitimer(signal.ITIMER_REAL, CALL_BUDGET)
+            try:
+                fn()
+            finally:
+                signal.setitimer(signal.ITIMER_REAL, 0)
+                signal.signal(signal.SIGALRM, old)
             ev["out"] = "ok"
+        except NoReturn:
+            # nothing in the listed properties speaks about termination: the call is not part of the trace, the session ends here (counted)
+            raise
         except Exception as ex:       # every outcome is an observation
             ev["out"] = type(ex).__name__
             ev["exc_text"] = str(ex)[:160]
@@ -457,12 +478,19 @@ def run_job(spec, calls, twin=True):
     init = s.state()
     events, readable = [], []
     twin_clean = True      # no solver step has yet run with the designated target active (the solver keeps memory: Broyden Jacobian, limit masks)
+    cut = False
     for c in calls:
+        if cut:
+            break
         same_start = s2 is not None and [struct.pack("<d", x) for x in s.knobs()] == [struct.pack("<d", x) for x in s2.knobs()] and s.flags() == s2.flags() \
             and s.ncalls == s2.ncalls
-        ev = s.call(c)
+        try:
+            ev = s.call(c)
+            ev2 = s2.call(c) if s2 is not None else None
+        except NoReturn:
+            cut = True
+            continue
         if s2 is not None:
-            ev2 = s2.call(c)
             jt = spec["twin_target"] + 1
             # only when both optimizers entered the call in the same state: an earlier call with the target active legitimately separated them
             if c["ev"] in ("Step", "Solve") and (any(jt in r["ta"] for r in ev["rows"]) or any(jt in r["ta"] for r in ev2["rows"]) or not ev["rows"]):
@@ -475,7 +503,7 @@ def run_job(spec, calls, twin=True):
         readable.append({k: v for k, v in ev.items() if k not in ("rows",)} | {"rows": [{"kind": r["kind"], "knobs": r["knobs"], "va": r["va"], "ta": r["ta"],
                          "tol": r["tol"], "pen": r["pen"], "ratio": r["ratio"]} for r in ev["rows"]]})
         events.append(strip(ev))
-    return {"nk": spec["nk"], "init": init, "events": events, "env": s.environment(events, init)}, readable
+    return {"nk": spec["nk"], "init": init, "events": events, "env": s.environment(events, init), "cut": cut}, readable
 
 
 def worker(job, shard, nshards):
@@ -495,6 +523,7 @@ def worker(job, shard, nshards):
         traces.append(tr)
         readables.append({"job": i, "fault": spec.get("fault"), "events": rd})
         stats["traces"] += 1
+        stats["calls_that_did_not_return"] += bool(tr.get("cut"))
         stats["events"] += len(tr["events"])
         stats["failing_solves"] += sum(1 for e in tr["events"] if e["ev"] == "Solve" and e["out"] != "ok")
         stats["failing_calls"] += sum(1 for e in tr["events"] if e["out"] != "ok")
@@ -507,8 +536,11 @@ def worker(job, shard, nshards):
             one(i, spec, calls)
             continue
         s = Session(spec)
-        for c in calls:
-            s.call(c)
+        try:
+            for c in calls:
+                s.call(c)
+        except NoReturn:
+            stats["calls_that_did_not_return"] += 1
         n = s.ncalls
         ks = list(range(3, n + 1))
         if len(ks) > job.get("max_faults", 6):
